@@ -319,6 +319,7 @@ def trace_validate_chunked(ctx, module, cfg, trace_path, name, boundary, max_eve
     """Like trace_validate, for long traces: cut at records for which boundary(rec) holds (points where the specification is
     back in its initial condition) into pieces of at most about max_events records, one TLC run each.  Positions in the
     result refer to the whole trace."""
+    parallel = kw.pop("parallel", 1)
     with open(trace_path) as f:
         lines = [l for l in f if l.strip()]
     if len(lines) <= max_events:
@@ -333,14 +334,28 @@ def trace_validate_chunked(ctx, module, cfg, trace_path, name, boundary, max_eve
                 start = cut
             last_b = i
     pieces.append((start, len(lines)))
-    total = 0
-    res = None
-    for k, (a, b) in enumerate(pieces):
+
+    def one(k):
+        a, b = pieces[k]
         part = "%s.part%d" % (trace_path, k)
         with open(part, "w") as f:
             f.writelines(lines[a:b])
-        ok, info, res = trace_validate(ctx, module, cfg, part, "%s_%d" % (name, k), **kw)
-        os.remove(part)
+        try:
+            return trace_validate(ctx, module, cfg, part, "%s_%d" % (name, k), **kw)
+        finally:
+            os.remove(part)
+
+    if parallel > 1:
+        # the pieces are independent TLC runs (one worker each); results are looked at in trace order
+        from concurrent.futures import ThreadPoolExecutor
+        with ThreadPoolExecutor(max_workers=parallel) as ex:
+            results = list(ex.map(one, range(len(pieces))))
+    else:
+        results = None
+    total = 0
+    res = None
+    for k, (a, b) in enumerate(pieces):
+        ok, info, res = results[k] if results else one(k)
         if not ok:
             if info["rejected_at"] is not None:
                 info["rejected_at"] += a
